@@ -5,6 +5,31 @@
 package transform
 
 // ---------------------------------------------------------------------------------------------
+// Transformer: contract used by the source wrappers (C20) and the sources (C11, C12)
+// ---------------------------------------------------------------------------------------------
+
+//@ fun translated(t RType, manglers Slice) RType
+
+//@ func transform.NewTransformer(t, manglers) (tfm)
+//@   props C10
+//@   safety C16
+//@   ensures tfm != nil && fresh(tfm) && tfm.t == t && tfm.manglers == manglers
+
+//@ func transform.(*Transformer).TranslateType(t) (typ, err)
+//@   flag unproved
+//@   flag record translateType
+//@   requires t != nil
+//@   modifies transform.Transformer.mState@t
+//@   ensures err == nil ==> typ != nil && typ == translated(t.t, t.manglers)
+//@   ensures err != nil ==> typ == nil
+
+//@ func transform.(*Transformer).ReverseTranslate(t, v) (r, err)
+//@   flag unproved
+//@   flag record reverseTranslate
+//@   requires t != nil
+//@   ensures err == nil ==> valid(r) && vtype(r) == t.t
+
+// ---------------------------------------------------------------------------------------------
 // C14: the alias mangler's Unmangle truth table (neither / primary / alias / both)
 // ---------------------------------------------------------------------------------------------
 
